@@ -67,3 +67,12 @@ CLAIMS["C04"] = {
     "note": "HTTP goes to a scripted RoundTripper injected through the transport pool, sockets to a loopback listener. A panic on a goroutine the backend spawns kills the test binary: cases are journaled before each flush and the driver reports the journaled case (crash_is_violation).",
     "technique": "stateful property-based testing (rapid state machine) with a crash-freedom oracle over every bundled backend",
 }
+
+CLAIMS["C05"] = {
+    "text": "Generated datagrams mix lines with known fields (colliding series, names needing in-place normalisation, up to 7 tags incl. host: tags), known-invalid lines, events, empty lines and arbitrary pieces, "
+            "with/without trailing newline, under ignore-host on/off, namespaces, senders and timestamps, through a real DatagramParser. Three oracles: (1) metamorphic - the dispatched map, events and the "
+            "metrics/events/bad-line counters equal the fold of parsing every line alone in a fresh parser, the last gauge line winning; (2) a direct model built from the known fields (receive time, source = sender or first host: tag, "
+            "remaining tags, values); (3) immutability - DoneFunc immediately overwrites the buffer, a second datagram goes through the same parser (pool reuse) and the objects dispatched for the first datagram must not change. Exploration.",
+    "note": "The parser runs on a goroutine the harness owns; quiescence is a sentinel batch whose DoneFunc fires after the previous batch's accounting. Wall-clock event dates (no d: field) are compared with 5 s tolerance.",
+    "technique": "property-based testing (rapid): metamorphic relation (whole = fold of lines) + direct model + snapshot-immutability oracle",
+}
